@@ -11,9 +11,10 @@ EXTENDS ReaderAbs, Json, IOUtils, SequencesExt
 
 Rec == ndJsonDeserialize(IOEnv.TRACE)
 
-VARIABLES l, rel, run
+VARIABLES l, rel, run,
+  fn     \* <<w, sn>> -> <<fragments that arrived during the current match of w, total, consistent>>
 
-tvars == <<absVars, l, rel, run>>
+tvars == <<absVars, l, rel, run, fn>>
 
 \* (ToSet comes with SequencesExt)
 AckRec(a) == [base |-> a.base, set |-> ToSet(a.set), count |-> a.count]
@@ -37,7 +38,31 @@ C06Viol(e) ==
   \* slice of the maximum UDP size (64 KiB, released with the message): counted per datagram, not as bloat
   \cup (IF e.alloc > 1048576 + 256 * e.len + (IF e.sock THEN 65536 * e.n ELSE 0) THEN {"C06_memory_out_of_proportion"} ELSE {})
 
-TraceInit == AbsInit /\ l = 1 /\ rel = TRUE /\ run = 0
+TraceInit == AbsInit /\ l = 1 /\ rel = TRUE /\ run = 0 /\ fn = <<>>
+
+\* fragments per sample since the writer was (re)matched: a sample all of whose fragments arrived while its writer was
+\* matched must come out of the reader (C05: "delivers the sample once ... after all of its fragments have arrived")
+FnNext(e) ==
+  CASE e.ev = "Reset" -> <<>>
+    [] e.ev = "Unmatch" \/ (e.ev = "Match" /\ ~matched[e.w]) -> [k \in {x \in DOMAIN fn : x[1] # e.w} |-> fn[k]]
+    [] e.ev = "DataFrag" /\ matched[e.w] /\ e.sn >= 1 ->
+         LET k == <<e.w, e.sn>>
+             old == IF k \in DOMAIN fn THEN fn[k] ELSE <<{}, e.tot, TRUE>>
+         IN [x \in DOMAIN fn \cup {k} |->
+               IF x = k THEN <<old[1] \cup (e.fs .. (e.fs + e.fc - 1)), old[2], old[3] /\ old[2] = e.tot>> ELSE fn[x]]
+    [] OTHER -> fn
+
+\* one take that did not hit its limit returned `got`
+TakeCompleteViol(e) ==
+  IF rel /\ (e.byinst \/ Len(e.got) < e.max) /\
+     \E k \in DOMAIN fn :
+        LET w == k[1]
+            sn == k[2]
+        IN /\ fn[k][3] /\ (1..fn[k][2]) \subseteq fn[k][1]
+           /\ matched[w] /\ sn < low[w] /\ sn \notin everUnav[w]
+           /\ sn \notin {handed[w][i] : i \in DOMAIN handed[w]}
+           /\ ~(\E i \in DOMAIN e.got : e.got[i].w = w /\ e.got[i].sn = sn)
+  THEN {"C05_complete_sample_not_handed_over"} ELSE {}
 
 AbsReset ==
   /\ matched'  = [w \in Writers |-> FALSE]
@@ -72,12 +97,13 @@ Step ==
        \* by instance: the application took instance after instance; within an instance the samples of a writer must come in
        \* sequence-number order, and the union (everything that was available) is judged like the result of one take
        [] e.ev = "Take"      -> /\ IF e.byinst
-                                     THEN ObsHandWith(SortSeq(Got(e), LAMBDA a, b : a.sn < b.sn), InstOrderViol(e.got))
-                                     ELSE ObsHand(Got(e))
+                                     THEN ObsHandWith(SortSeq(Got(e), LAMBDA a, b : a.sn < b.sn), InstOrderViol(e.got) \cup TakeCompleteViol(e))
+                                     ELSE ObsHandWith(Got(e), TakeCompleteViol(e))
                                 /\ UNCHANGED <<rel, run>>
        \* non-interference: a hostile datagram changes nothing in the abstract state of the well-behaved peers
        [] e.ev = "Hostile"   -> viol' = viol \cup C06Viol(e) /\ UNCHANGED <<rel, run, matched, recv, unavMay, unavMust, everUnav, deliv, frags, hbCnt, hbRange, handed, hlow, low, ackBase, ackCnt, nfCnt>>
        [] e.ev \in {"HostileBegin", "RunDone", "TakeErr"} -> UNCHANGED <<absVars, rel, run>>
+  /\ fn' = FnNext(Rec[l])
   /\ (viol' # viol /\ viol' # {}) =>
         PrintT("VIOL line=" \o ToString(l) \o " run=" \o ToString(run') \o " clauses=" \o ToString(viol' \ viol))
 
